@@ -21,9 +21,9 @@ unsigned int nondet_uint(void);
 #define HM_KEY 0
 #endif
 #define KEYS 6                      /* key universe 0..5; keys 1..HM_N are present */
-static unsigned int H[KEYS];
+static unsigned long H[KEYS];
 /* ASSUMED: the hash functor is a pure function of the key */
-unsigned int frgv_vhash_op_call(struct frgv_vhash *this, int *k) { __CPROVER_assert(*k >= 0 && *k < KEYS, "harness key universe"); return H[*k]; }
+unsigned long frgv_vhash_op_call(struct frgv_vhash *this, int *k) { __CPROVER_assert(*k >= 0 && *k < KEYS, "harness key universe"); return H[*k]; }
 
 static struct frgv_valloc frgv_a; static struct frgv_vhash frgv_h;
 static int present[KEYS]; static int value_of[KEYS];
@@ -32,7 +32,9 @@ static void build(struct hm *m)
 {
 	/* the hash function of this run: HM_H = 0 constant (everything collides), 1 identity, 2 k*3 (collides mod 3, spreads mod 10),
 	 * 3 k*10+1 (collides after growth to 10 buckets) */
-	for (int k = 0; k < KEYS; k++) { H[k] = HM_H == 0 ? 7u : HM_H == 1 ? (unsigned)k : HM_H == 2 ? (unsigned)k * 3u : (unsigned)k * 10u + 1u; present[k] = 0; }
+	for (int k = 0; k < KEYS; k++) { H[k] = HM_H == 0 ? 7u : HM_H == 1 ? (unsigned)k : HM_H == 2 ? (unsigned)k * 3u : (unsigned)k * 10u + 1u;
+		H[k] += 0x300000000UL;      /* bits above 32: every path must reduce the hash to unsigned int the same way before taking it modulo the capacity */
+		present[k] = 0; }
 	memset(m, 0, sizeof(*m)); hm_ctor_0(m, &frgv_h, frgv_a);
 	m->_capacity = HM_CAP;
 	m->_table = HM_CAP ? (struct hm_chain **)frgv_valloc_allocate(&frgv_a, sizeof(struct hm_chain *) * HM_CAP) : 0;
